@@ -335,6 +335,54 @@ fn runs_family(tier: Tier, shard: usize, nshards: usize, ctx: &mut Ctx) {
     }
 }
 
+/// large superblock factors: a superblock of 32k bits holds more than 255 one-bits once k >= 8,
+/// so per-superblock partial counts no longer fit a byte
+const BIG_KS: [usize; 6] = [8, 9, 16, 33, 64, 100];
+
+fn bigk_family(tier: Tier, shard: usize, nshards: usize, ctx: &mut Ctx) {
+    let mut plain: Vec<bool> = Vec::new();
+    let mut idx = 0usize;
+    let cmax = tier.pick(2, 3);
+    for c in 0..=cmax {
+        let radices = vec![CHUNK_SHAPES; c];
+        let mut tuples: Vec<Vec<usize>> = vec![];
+        if c == 0 {
+            tuples.push(vec![]);
+        } else {
+            gen::odometer(&radices, |d| tuples.push(d.to_vec()));
+        }
+        for shapes in &tuples {
+            for &k in &BIG_KS {
+                idx += 1;
+                if idx % nshards != shard {
+                    continue;
+                }
+                let s = 32 * k;
+                for (t, fill) in run_tails(s) {
+                    if c == 0 && t == 0 {
+                        continue;
+                    }
+                    plain.clear();
+                    for &sh in shapes {
+                        push_chunk(&mut plain, sh, s);
+                    }
+                    for i in 0..t {
+                        plain.push(match fill {
+                            0 => false,
+                            1 => true,
+                            _ => i % 2 == 1,
+                        });
+                    }
+                    rs_case(ctx, &plain, k);
+                }
+            }
+            if ctx.res.capped {
+                return;
+            }
+        }
+    }
+}
+
 // ------------------------------------------------------------------------------ WaveletMatrix
 
 const WM_SYMS: &[u8; 6] = b"ACGTN$";
@@ -430,7 +478,7 @@ impl Prop for C17Prop {
         "exploration"
     }
     fn rule(&self) -> &'static str {
-        "One case = one (bit vector, k) pair: RankSelect::new on it, then get/rank_1/rank_0 for every i in 0..=n+1 and u64::MAX and select_1/select_0 for every j in 0..=n+1 and u64::MAX against naive counting, plus rank(select(j)) = j on the subject's own answers. Vectors: every vector of length 1..=L; every 9-byte vector over a set of byte patterns with the last byte cut to t bits (65..72 bits); every sequence of up to C superblock-sized chunks of six shapes (zeros, ones, only-first, only-last, all-but-first, all-but-last) followed by one of 12 tails, for each k. Wavelet matrix: one case = one text over {A,C,G,T,N,$} (every text of length 1..=W, and for every primitive one its periodic extension to at least E symbols), every symbol x every position. All tuples are points of a product space, enumerated once. Non-trivial: the vector spans more than one superblock (n > 32k) or its last byte is partial; wavelet: the text has >= 3 distinct symbols, or >= 2 and more than 32 symbols."
+        "One case = one (bit vector, k) pair: RankSelect::new on it, then get/rank_1/rank_0 for every i in 0..=n+1 and u64::MAX and select_1/select_0 for every j in 0..=n+1 and u64::MAX against naive counting, plus rank(select(j)) = j on the subject's own answers. Vectors: every vector of length 1..=L; every 9-byte vector over a set of byte patterns with the last byte cut to t bits (65..72 bits); every sequence of up to C superblock-sized chunks of six shapes (zeros, ones, only-first, only-last, all-but-first, all-but-last) followed by one of 12 tails, for each k (small k with up to C chunks; k in {8,9,16,33,64,100} with up to 2/3 chunks, where a superblock holds more than 255 one-bits). Wavelet matrix: one case = one text over {A,C,G,T,N,$} (every text of length 1..=W, and for every primitive one its periodic extension to at least E symbols), every symbol x every position. All tuples are points of a product space, enumerated once. Non-trivial: the vector spans more than one superblock (n > 32k) or its last byte is partial; wavelet: the text has >= 3 distinct symbols, or >= 2 and more than 32 symbols."
     }
     fn assumptions(&self) -> Vec<&'static str> {
         vec![
@@ -447,6 +495,7 @@ impl Prop for C17Prop {
                       "last_byte_bits": byte_tails(tier), "k": "1,2,3", "bits": "65..=72"},
             "runs": {"chunks": format!("0..={} of 32k bits, 6 shapes each", run_chunks_max(tier)),
                      "tails": "0 | 1 bit (0,1) | 7, 9, 32k-1 bits (zeros, ones, 0101..)", "k": run_ks(tier)},
+            "big_k": {"k": BIG_KS, "chunks": format!("0..={}", tier.pick(2, 3))},
             "queries": "every i in 0..=n+1 and u64::MAX; every j in 0..=n+1 and u64::MAX",
             "wavelet": {"alphabet": "A,C,G,T,N,$", "text_len": format!("1..={}", wm_max(tier)),
                         "periodic_extension_to_at_least": wm_extend_to(tier), "symbols": "all 6", "positions": "all"}
@@ -470,7 +519,8 @@ impl Prop for C17Prop {
         }
         u -= BYTES_SHARDS;
         if u < RUNS_SHARDS {
-            return runs_family(tier, u, RUNS_SHARDS, ctx);
+            runs_family(tier, u, RUNS_SHARDS, ctx);
+            return bigk_family(tier, u, RUNS_SHARDS, ctx);
         }
         u -= RUNS_SHARDS;
         if u < WM_SHARDS {
